@@ -508,6 +508,17 @@ def gen_string_program(rng, base):
         if rng.random() < 0.5:
             ins('cld')
             ops[0] = {'op': 'insn', 'line': 'cld'}
+        if rng.random() < 0.5:
+            # a concrete zero flag left by an earlier instruction (the strlen idiom: xor/test before repne scas)
+            z = rng.random()
+            if z < 0.35:
+                ins('xor edx, edx')                    # zf = 1
+            elif z < 0.7:
+                ins('mov edx, 1')
+                ins('test edx, edx')                   # zf = 0
+            else:
+                ins('mov edx, %d' % rng.choice([0, 5]))
+                ins('cmp edx, 5')
         ins(rng.choice(['repe', 'repne']) + ' ' + rng.choice(['cmps', 'scas']) + rng.choice(['b', 'b', 'w', 'd']))
     else:
         for _ in range(rng.randrange(1, 4)):
